@@ -342,3 +342,23 @@ Proof.
   cbn [postReplacements of_res]. rewrite Hg. cbn [str_eqb N.eqb andb f_text tag_frag tag_of app]. rewrite ibind_iret_l.
   rewrite app_nil_r, <- app_assoc. reflexivity.
 Qed.
+
+(* under the drop and escape policies no raw angle bracket reaches the output *)
+From Rimu Require Import Block Frame FrameBlock FrameInst OptionsLemmas MiscLemmas.
+Lemma inline_tag_confined : forall n s pre name post out log,
+  defaults s -> over word_alphabet pre -> name_ok2 name -> over word_alphabet name ->
+  over word_alphabet post ->
+  (html_policy (en_mode s) = PDrop \/ html_policy (en_mode s) = PEscape) ->
+  spans_render (S (S (S (S n)))) s (pre ++ 60 :: name ++ 62 :: post) = Ok (out, log) ->
+  ~ In 60 out /\ ~ In 62 out.
+Proof.
+  intros n s pre name post out log Hd Hpre Hn Hnw Hpost Hpol H.
+  rewrite (spans_render_tag n s pre name post Hd Hpre Hn Hnw Hpost) in H. inversion H; subst out log. clear H.
+  assert (Hw : forall t x, over word_alphabet t -> In x t -> x <> 60 /\ x <> 62).
+  { intros t x Ht Hx. apply Ht in Hx. apply word_char in Hx. tauto. }
+  assert (HF : ~ In 60 (htmlSafeModeFilter s (60 :: name ++ [62])) /\ ~ In 62 (htmlSafeModeFilter s (60 :: name ++ [62]))).
+  { unfold htmlSafeModeFilter. destruct Hpol as [-> | ->]; [split; intros []|apply escape_no_lt_gt]. }
+  split; intros Hin; apply in_app_or in Hin as [Hin|Hin];
+    try (apply (Hw pre _ Hpre) in Hin; tauto);
+    apply in_app_or in Hin as [Hin|Hin]; try (apply (Hw post _ Hpost) in Hin; tauto); tauto.
+Qed.
